@@ -70,7 +70,26 @@ CLAIM = {
             'pickle inside a history, parent and child continued interleaved) and oracle against never-related '
             'twins incl. similar generator, second round trip of the child, default-RS generators; R14 (count '
             'scale) - L = 257 / 258 / 300 / 65537 rays, 257 / 258 / 300 / 65537 entries, 12-dimensional shape, '
-            'by correspondence/oracle (the model is unbounded). An exception escaping an oracle is a failing input '
+            'by correspondence/oracle (the model is unbounded). Third round: R15 (distinct values that are merely close) - '
+            'theorems close_values_distinct_samples / tiny_doppler_not_time_invariant / close_phase_distinct_samples (single '
+            'ray: two (Fd, t) pairs less than one cycle apart, two starting phases less than one turn apart give different '
+            'samples, so only Fd = 0 is time invariant and the model is a function of the exact values) + oracles: sets of '
+            'live generators whose Fd / Ts are 0, 1e-15 .. 1e-9, or differ by a relative 1e-9 .. 1e-5, or are adjacent '
+            'doubles, same phases, histories issued interleaved / one after the other, each checked against the closed '
+            'form for its OWN values with the separation of the variants computed from the reference (>= 20 tolerances, '
+            'reported as close_margin_min; adjacent doubles: exact storage / forwarding only), call sequences of the free '
+            'function with close Fd / Ts / current_time / phi_l / psi_l, Ts = 1e-9 with requests and skips of 0..9 samples; '
+            'every variant also runs through the correspondence (model evaluated at exactly these values). The class has '
+            'no float setter (Fd / Ts / L are read-only), so "a setter takes effect for a close value" does not apply. R16 '
+            '(argument identity and buffer reuse) - model of the caller (Caller / CallerOp / runC: ONE 0-d size buffer and '
+            'ONE shape buffer refilled in place, passed to generate and skip alike, overwritten after the call), theorems '
+            'buffer_contents_at_call_time / later_refills_invisible, driver command histb + correspondence and oracles '
+            '(closed form, canonical twin with fresh Python ints) on histories whose sizes / shapes travel in such buffers '
+            '(rejected contents, constructor list reused by the setter, one buffer serving parent and derived copy), free '
+            'function with ONE phi / psi array (reshaped and refilled in place, the same array in both roles, equal-content '
+            'fresh copies, phases beyond one turn, arguments overwritten after the call, earlier results intact, equal to a '
+            'later call on fresh copies), ONE RandomState re-seeded in place for several constructors / shape assignments. '
+            'Arrays handed out by get_samples() are not arguments: scribbling over them is not part of R16. An exception escaping an oracle is a failing input '
             '(exit 1), a harness exception in the correspondence a broken tie (exit 1), never exit 2. L = 0 '
             '(ZeroDivisionError, modelled) is outside the property quantifier.'}
 
@@ -101,6 +120,9 @@ def _impl():
 #   {'t': 'neg', 'v': [2, -1]} / {'t': 'negint', 'v': -1} / {'t': 'str'} / {'t': 'float'} / {'t': 'tuplefloat'}
 INT_TYPES = ('int8', 'uint8', 'int16', 'uint16', 'int32', 'uint32', 'int64', 'uint64',
              'intp', 'uintp', 'longlong', 'ulonglong', 'short', 'ushort', 'intc', 'uintc', 'byte', 'ubyte')
+# argument BUFFERS (R16): {'t': 'buf0:int64', 'v': 7} is the caller's ONE preallocated 0-d array of that type, refilled
+# in place (buf[...] = 7) for this call and overwritten right after it; {'t': 'buf:list', 'v': [2, 3]} /
+# {'t': 'buf:arr:int64', 'v': [2, 3]} the caller's ONE list / integer array (per length) for shapes, refilled in place
 # argument FORMS (R8): a size spec may be wrapped as {'form': 'kw' | 'none', 'a': spec}: the call is made by
 # keyword (num_samples=...) / with an explicit None instead of leaving the argument out
 QUERIES = ('get_samples', 'shape', 'L', 'Ts', 'Fd', 'repr', 'str', 'eq', 'hash', 'current_time', 'dir', 'vars',
@@ -114,6 +136,49 @@ def unform(spec):
 
 FLOAT_TYPES = ('float16', 'float32', 'float64')
 
+# the caller's preallocated argument buffers (R16); emptied at the start of every oracle / implementation run so that
+# a replay starts from the same caller state
+_BUFS = {}
+SCRIBBLE = 77
+
+
+def reset_buffers():
+    _BUFS.clear()
+
+
+def size_buffer(dt, v):
+    b = _BUFS.get(('size', dt))
+    if b is None:
+        b = _BUFS[('size', dt)] = np.zeros((), dtype=dt)
+    b[...] = v
+    return b
+
+
+def shape_buffer(t, v):
+    if t == 'buf:list':
+        b = _BUFS.setdefault(('shape', 'list'), [])
+        b[:] = [int(d) for d in v]
+        return b
+    dt = t.split(':')[2]
+    b = _BUFS.get(('shape', dt, len(v)))
+    if b is None:
+        b = _BUFS[('shape', dt, len(v))] = np.zeros(len(v), dtype=dt)
+    b[...] = v
+    return b
+
+
+def is_buf(spec):
+    spec = unform(spec)[1] if isinstance(spec, dict) and 'form' in spec else spec
+    return isinstance(spec, dict) and str(spec.get('t', '')).startswith('buf')
+
+
+def scribble(obj):
+    """the caller goes on using its own argument object right after the call (R3 / R16 iii)"""
+    if isinstance(obj, list):
+        obj.append(5)
+    elif isinstance(obj, np.ndarray) and obj.flags.writeable and obj.dtype.kind in 'iuf':
+        obj[...] = SCRIBBLE
+
 
 def mk_size(spec):
     spec = unform(spec)[1]
@@ -124,6 +189,8 @@ def mk_size(spec):
         return getattr(np, t)(v)
     if t.startswith('arr0:'):
         return np.array(v, dtype=t[5:])
+    if t.startswith('buf0:'):
+        return size_buffer(t[5:], v)
     if t == 'bool':
         return bool(v)
     if t == 'float':
@@ -146,9 +213,9 @@ def size_value(spec):
     if isinstance(spec, int):
         return ('ok', spec) if spec >= 0 else ('reject', 'ValueError')
     t, v = spec['t'], spec.get('v')
-    if t in INT_TYPES or t == 'bool' or (t.startswith('arr0:') and t[5:] in INT_TYPES):
+    if t in INT_TYPES or t == 'bool' or (t[:5] in ('arr0:', 'buf0:') and t[5:] in INT_TYPES):
         return ('ok', int(v)) if int(v) >= 0 else ('reject', 'ValueError')
-    if t == 'float' or t in FLOAT_TYPES or t.startswith('arr0:'):
+    if t == 'float' or t in FLOAT_TYPES or t[:5] in ('arr0:', 'buf0:'):
         return ('either', int(v)) if float(v) == int(v) and v >= 0 else ('reject', 'TypeError')
     return 'reject', 'TypeError'
 
@@ -161,7 +228,7 @@ def size_tok(spec):
     if isinstance(spec, int):
         return str(spec)
     t = spec['t']
-    if t in INT_TYPES or t == 'bool' or (t.startswith('arr0:') and t[5:] in INT_TYPES):
+    if t in INT_TYPES or t == 'bool' or (t[:5] in ('arr0:', 'buf0:') and t[5:] in INT_TYPES):
         return str(int(spec['v']))
     return 'x'
 
@@ -185,6 +252,8 @@ def mk_shape(spec):
         return tuple(getattr(np, t[8:])(d) for d in v)
     if t.startswith('arr:'):
         return np.array(v, dtype=t[4:])
+    if t.startswith('buf:'):
+        return shape_buffer(t, v)
     if t == 'mixed':        # a tuple whose ELEMENTS differ in type (R10)
         kinds = [int, np.int8, np.uint64, np.intp, lambda d: np.array(d, dtype=np.int16), np.uint8]
         return tuple((bool(d) if (d == 1 and i % 3 == 2) else kinds[i % len(kinds)](d)) for i, d in enumerate(v))
@@ -215,6 +284,8 @@ def shape_value(spec):
     t, v = spec['t'], spec.get('v')
     if t.startswith('np:'):
         return 'ok', (int(v),)
+    if t.startswith('buf:'):        # whatever the buffer holds at call time: negative entries are refused
+        return ('ok', tuple(int(d) for d in v)) if all(int(d) >= 0 for d in v) else ('reject', 'ValueError')
     if t in ('list', 'mixed', 'mixedlist') or t.startswith('nptuple:') or t.startswith('arr:'):
         return 'ok', tuple(int(d) for d in v)
     if t in ('neg', 'negint'):
@@ -233,7 +304,7 @@ def shape_tok(spec):
     t, v = spec['t'], spec.get('v')
     if t.startswith('np:') or t == 'negint':
         return 'i%d' % int(v)
-    if t in ('list', 'neg', 'mixed', 'mixedlist') or t.startswith('nptuple:') or t.startswith('arr:'):
+    if t in ('list', 'neg', 'mixed', 'mixedlist') or t.startswith('nptuple:') or t.startswith('arr:') or t.startswith('buf:'):
         return 't' + ';'.join(str(int(d)) for d in v)
     return 'x'
 
@@ -263,17 +334,21 @@ def call_size_op(g, kind, spec):
     """issue generate_more_samples / skip_samples_for_next_generation in the argument form of the spec"""
     form, a = unform(spec)
     obj = mk_size(a)
-    if kind == 's':
-        if form == 'kw':
-            g.skip_samples_for_next_generation(num_samples=obj)
+    try:
+        if kind == 's':
+            if form == 'kw':
+                g.skip_samples_for_next_generation(num_samples=obj)
+            else:
+                g.skip_samples_for_next_generation(obj)
+        elif a is None and form != 'none':
+            g.generate_more_samples()
+        elif form == 'kw':
+            g.generate_more_samples(num_samples=obj)
         else:
-            g.skip_samples_for_next_generation(obj)
-    elif a is None and form != 'none':
-        g.generate_more_samples()
-    elif form == 'kw':
-        g.generate_more_samples(num_samples=obj)
-    else:
-        g.generate_more_samples(obj)
+            g.generate_more_samples(obj)
+    finally:
+        if is_buf(a):
+            obj[...] = SCRIBBLE     # R16: the caller overwrites its buffer right after the call
     return obj
 
 
@@ -361,6 +436,10 @@ def case_tag(case, arg=None):
     if (any(o[0] == 'S' and isinstance(o[1], dict) for o in case.get('ops', []))
             or isinstance(case.get('shape'), dict)) and not isinstance(arg, dict):
         tags.append('typed-shapes')
+    if any(is_buf(a) for a in specs) or is_buf(case.get('shape')) or any(o[0] == 'S' and is_buf(o[1]) for o in case.get('ops', [])):
+        tags.append('arg-buffers')
+    if case.get('r15'):
+        tags.append('close-values=' + case['r15'])
     if case.get('types'):
         tags.append('params=' + '+'.join(sorted(set(case['types'].values()))))
     if isinstance(case.get('seed'), dict) and 'layout' in case['seed']:
@@ -634,8 +713,8 @@ def o_history(case):
     except Exception as e:
         return cls('exception:' + type(e).__name__, case, 0, 1, case['shape']), 'constructor: %r' % (e,)
     shape = norm_shape(case['shape'])
-    if isinstance(ctor_shape, list):
-        ctor_shape.append(5)        # the caller goes on using its own list
+    if isinstance(ctor_shape, (list, np.ndarray)):
+        scribble(ctor_shape)        # the caller goes on using its own list / array
         if tuple(g.shape) != shape:
             return cls('shape-attribute', case, 0, 1, case['shape']), \
                 'the shape follows the list the caller passed to the constructor: %r' % (g.shape,)
@@ -677,6 +756,8 @@ def o_history(case):
                 raised = None
             except Exception as e:
                 raised = e
+            if st == 'reject' and is_buf(arg):
+                scribble(obj)
             if st == 'reject':
                 if raised is None:
                     return cls('invalid-shape-accepted', case, k, 1, arg), 'shape = %r was accepted' % (obj,)
@@ -688,8 +769,7 @@ def o_history(case):
             if raised is not None:
                 return cls('exception:' + type(raised).__name__, case, k, 1, arg), 'shape = %r: %r' % (obj, raised)
             shape = val
-            if isinstance(obj, list):
-                obj.append(5)       # the caller goes on using its own list
+            scribble(obj)           # the caller goes on using its own list / array
             got = g.shape
             if not (got is None and val is None or (got is not None and tuple(got) == val)):
                 return cls('shape-attribute', case, k, 1, arg), 'shape = %r reads back as %r' % (mk_shape(arg), got)
@@ -698,7 +778,7 @@ def o_history(case):
             phases = (g._phi_l.copy(), g._psi_l.copy())
             continue
         st, val = size_value(arg)
-        obj = None if is_ctor else mk_size(arg)
+        obj = None if (is_ctor or is_buf(arg)) else mk_size(arg)
         n = val if st != 'reject' else 1
         reg_n = max(n, 1)
         before = observables(g) if st != 'ok' else None
@@ -708,7 +788,8 @@ def o_history(case):
             raised = None
         except Exception as e:
             raised = e
-        what = '%s(%r) at sample %d' % ('skip' if kind == 's' else 'generate_more_samples', obj, k)
+        what = '%s(%r) at sample %d' % ('skip' if kind == 's' else 'generate_more_samples',
+                                       unform(arg)[1] if is_buf(arg) else obj, k)
         if st == 'reject' and raised is None:
             return cls('invalid-size-accepted', case, k, 1, arg), what + ' was accepted'
         if st in ('reject', 'either') and raised is not None:
@@ -1296,6 +1377,293 @@ def o_function(case):
     return None
 
 
+# ---- R15: distinct values that are merely close --------------------------------------------
+LAST = {}       # side channel of the R15 oracles: how far apart (in units of the tolerance) the variants' processes are
+
+
+def same_float(a, b):
+    try:
+        return float(a).hex() == float(b).hex()
+    except Exception:
+        return False
+
+
+def pair_margin(refs, tols):
+    """min over pairs of variants of the largest probed |difference| / (sum of their tolerances): the variants are
+    told apart by the value check only if this is well above 1 (computed from the first-principles reference)"""
+    m = float('inf')
+    for i in range(len(refs)):
+        for j in range(i + 1, len(refs)):
+            d = max((float(np.max(np.abs(a - b))) / (ta + tb) if a.size else 0.0)
+                    for (a, ta), (b, tb) in zip(zip(refs[i], tols[i]), zip(refs[j], tols[j])))
+            m = min(m, d)
+    return m
+
+
+def o_close(case):
+    """R15: generators whose Doppler frequency / sampling interval are DISTINCT but close (tiny magnitudes 1e-9..1e-15
+    next to 0 and to each other, relative differences 1e-9..1e-5, adjacent doubles) live in one process, same phases,
+    same request history issued interleaved or one after the other: every one returns the Jakes sum for ITS OWN exact
+    parameters, stores and forwards (similar generator, copy) exactly the value it was given"""
+    L = int(case['L'])
+    vs = case['variants']
+    tag = 'kind=' + case['kind']
+    LAST.pop('margin', None)
+    try:
+        gens = [make_gen(dict(case, Fd=v['Fd'], Ts=v['Ts'])) for v in vs]
+        for g, v in zip(gens, vs):
+            sim = g.get_similar_fading_generator()
+            for name in ('Fd', 'Ts'):
+                if not same_float(getattr(g, name), v[name]):
+                    return 'close-values:parameter-not-exact:' + tag, '%s=%r reads back as %r' % (name, v[name], getattr(g, name))
+                if not same_float(getattr(sim, name), v[name]):
+                    return 'close-values:similar-parameter-not-exact:' + tag, \
+                        'similar generator has %s=%r for %r' % (name, getattr(sim, name), v[name])
+        if not all(np.array_equal(g._phi_l, gens[0]._phi_l) and np.array_equal(g._psi_l, gens[0]._psi_l) for g in gens):
+            return None     # phases not reproducible from the seed: nothing to compare (o_history covers each variant)
+        ks = [1] * len(vs)
+        refs = [[] for _ in vs]
+        tols = [[] for _ in vs]
+        if case.get('order') == 'sequential':
+            plan = [(i, op) for i in range(len(vs)) for op in case['ops']]
+        else:
+            plan = [(i, op) for op in case['ops'] for i in range(len(vs))]
+        for i, (kind, arg) in plan:
+            g, v, k = gens[i], vs[i], ks[i]
+            n = 1 if arg is None else int(arg)
+            if kind == 's':
+                g.skip_samples_for_next_generation(arg)
+                ks[i] += n
+                continue
+            g.generate_more_samples(arg)
+            h = g.get_samples()
+            if h.shape[-1:] != (n,):
+                return 'close-values:count:%s:%s' % (tag, regime(k, n)), \
+                    'variant %d (Fd=%r, Ts=%r): request of %d at sample %d returned %s' % (i, v['Fd'], v['Ts'], n, k, h.shape)
+            js = probe_indices(n)
+            ref = ref_values(v['Fd'], v['Ts'], g._phi_l, g._psi_l, k + js)
+            tol = tol_for(L, v['Fd'], (k + n) * v['Ts'])
+            refs[i].append(ref)
+            tols[i].append(tol)
+            err = float(np.max(np.abs(h[..., js] - ref))) if h.size else 0.0
+            if not err <= tol:
+                return 'close-values:value:%s:%s' % (tag, regime(k, n)), \
+                    ('variant %d of %d (Fd=%r, Ts=%r): request of %d at sample %d differs from the Jakes sum for these '
+                     'parameters by %.3g (tolerance %.3g)' % (i, len(vs), v['Fd'], v['Ts'], n, k, err, tol))
+            ks[i] += n
+        LAST['margin'] = pair_margin(refs, tols)
+    except Exception as e:
+        return 'exception:%s:close-values:%s' % (type(e).__name__, tag), repr(e)[:300]
+    return None
+
+
+def function_phases(case, call):
+    """phases of one call of the R15 / R16 function oracles: base draw of the case + this call's perturbation"""
+    L = int(case['L'])
+    shape = norm_shape(case['shape'])
+    dims = (L, 1) if shape is None else (L,) + shape + (1,)
+    rs = np.random.RandomState(int(case['seed']))
+    phi0, psi0 = TWO_PI * rs.rand(*dims), TWO_PI * rs.rand(*dims)
+    u, u2 = 0.5 + 0.5 * rs.rand(*dims), 0.5 + 0.5 * rs.rand(*dims)
+    phi = phi0 + float(call.get('dphi', 0.0)) * u
+    psi = (psi0 if call.get('psi_scale') is None else float(call['psi_scale']) * u2) + float(call.get('dpsi', 0.0)) * u2
+    return phi, psi
+
+
+def o_function_close(case):
+    """R15 for generate_jakes_samples: consecutive calls whose Fd / Ts / current_time / phi_l / psi_l are distinct
+    but close (fresh array objects with close contents; phases of size 1e-9..1e-15 next to zeros): every call
+    returns the Jakes sum for exactly the values it was given"""
+    fg = _impl()
+    L = int(case['L'])
+    shape = norm_shape(case['shape'])
+    tag = 'kind=' + case['kind']
+    LAST.pop('margin', None)
+    refs, tols = [], []
+    try:
+        for i, c in enumerate(case['calls']):
+            phi, psi = function_phases(case, c)
+            N, k0 = int(c['N']), int(c['k0'])
+            ct = k0 * c['Ts']
+            snap = (phi.copy(), psi.copy())
+            nt, h = fg.generate_jakes_samples(c['Fd'], c['Ts'], N, L, shape, ct, phi, psi)
+            if not (np.array_equal(phi, snap[0]) and np.array_equal(psi, snap[1])):
+                return 'close-values:input-modified:' + tag, 'call %d changed phi_l / psi_l' % i
+            exp_shape = (N,) if shape is None else shape + (N,)
+            if h.shape != exp_shape:
+                return 'close-values:shape:' + tag, 'call %d returned %s, expected %s' % (i, h.shape, exp_shape)
+            js = probe_indices(N)
+            ref = ref_values(c['Fd'], c['Ts'], phi, psi, k0 + js)
+            tol = 2 * tol_for(L, c['Fd'], (k0 + N) * c['Ts'])
+            refs.append([ref])
+            tols.append([tol])
+            err = float(np.max(np.abs(h[..., js] - ref))) if h.size else 0.0
+            if not err <= tol:
+                return 'close-values:value:%s:%s' % (tag, regime(k0, max(N, 1))), \
+                    ('call %d of %d (Fd=%r, Ts=%r, current_time=%r, dphi=%r, dpsi=%r): differs from the Jakes sum for '
+                     'these values by %.3g (tolerance %.3g)' % (i, len(case['calls']), c['Fd'], c['Ts'], ct,
+                                                              c.get('dphi', 0), c.get('dpsi', 0), err, tol))
+            if not abs(nt - (k0 + N) * c['Ts']) <= 1e-9 * max(1.0, (k0 + N)) * c['Ts']:
+                return 'close-values:next-time:' + tag, 'call %d returned %r, expected %r' % (i, nt, (k0 + N) * c['Ts'])
+        if len({(c['N']) for c in case['calls']}) == 1:
+            LAST['margin'] = pair_margin(refs, tols)
+    except Exception as e:
+        return 'exception:%s:close-values:%s' % (type(e).__name__, tag), repr(e)[:300]
+    return None
+
+
+# ---- R16: argument identity and buffer reuse ------------------------------------------------
+def o_function_reuse(case):
+    """R16 for generate_jakes_samples: the caller keeps ONE preallocated phi array and ONE psi array (and one shape
+    list, one 0-d NSamples array), refills them in place before each of 2..4 calls, overwrites them right after
+    each call, sometimes passes the SAME array for phi_l and psi_l, sometimes an equal-content fresh copy: each
+    result is the Jakes sum of the contents at call time, equals what a later call with fresh copies of those
+    contents returns, and is not changed by the later refills; the buffers are never modified by the call"""
+    fg = _impl()
+    Fd, Ts, L = case['Fd'], case['Ts'], int(case['L'])
+    base = list(norm_shape(case['shape']) or [])
+    none_shape = case['shape'] is None
+    wide = bool(case.get('wide'))
+    roles = 'shared' if any(c.get('same') for c in case['calls']) else 'separate'
+    tag = 'roles=%s%s' % (roles, ',wide-phases' if wide else '')
+    reset_buffers()
+    rs = np.random.RandomState(int(case['seed']))
+    phi_buf = psi_buf = None
+    shape_list = []
+    n_buf = np.zeros((), dtype=case.get('N_buf') or 'int64')
+    kept = []
+    try:
+        for i, c in enumerate(case['calls']):
+            shp = None if none_shape else tuple(base[j] for j in c.get('perm', range(len(base))))
+            dims = (L, 1) if shp is None else (L,) + shp + (1,)
+            draw = (lambda: (rs.rand(*dims) - 0.5) * 8 * TWO_PI) if wide else (lambda: TWO_PI * rs.rand(*dims))
+            phi = draw()
+            psi = phi.copy() if c.get('same') else draw()
+            if phi_buf is None:
+                phi_buf, psi_buf = np.empty(dims), np.empty(dims)
+            phi_buf.shape = dims            # the same object, reshaped and refilled in place
+            psi_buf.shape = dims
+            phi_buf[...] = phi
+            psi_buf[...] = psi
+            if c.get('fresh'):              # equal content, different object
+                a_phi, a_psi = phi.copy(), (None if c.get('same') else psi.copy())
+            else:
+                a_phi, a_psi = phi_buf, (None if c.get('same') else psi_buf)
+            if a_psi is None:
+                a_psi = a_phi               # ONE object in two roles
+            N, k0 = int(c['N']), int(c['k0'])
+            ct = k0 * Ts
+            if case.get('N_buf'):
+                n_buf[...] = N
+                a_N = n_buf
+            else:
+                a_N = N
+            if shp is not None and case.get('shape_buf'):
+                shape_list[:] = list(shp)
+                a_shape = shape_list
+            else:
+                a_shape = shp
+            nt, h = fg.generate_jakes_samples(Fd, Ts, a_N, L, a_shape, ct, a_phi, a_psi)
+            if not (np.array_equal(a_phi, phi) and np.array_equal(a_psi, psi)):
+                return 'buffer-reuse:input-modified:' + tag, 'call %d changed the caller\'s phi_l / psi_l' % i
+            if a_shape is shape_list and shape_list != list(shp) or (a_N is n_buf and int(n_buf) != N):
+                return 'buffer-reuse:input-modified:' + tag, 'call %d changed the caller\'s shape list / NSamples array' % i
+            exp_shape = (N,) if shp is None else shp + (N,)
+            if not isinstance(h, np.ndarray) or h.shape != exp_shape:
+                return 'buffer-reuse:shape:' + tag, 'call %d returned %s, expected %s' % (i, getattr(h, 'shape', None), exp_shape)
+            if h.size and any(np.shares_memory(h, x) for x in (phi_buf, psi_buf, a_phi, a_psi)):
+                return 'buffer-reuse:output-aliases-input:' + tag, 'call %d returned memory of its arguments' % i
+            kept.append({'h': h, 'copy': h.copy(), 'phi': phi, 'psi': psi, 'N': N, 'k0': k0, 'shape': shp, 'nt': nt})
+            # the caller overwrites everything it passed right after the call
+            phi_buf[...] = -1.25
+            psi_buf[...] = 0.5
+            n_buf[...] = SCRIBBLE
+            shape_list[:] = [9, 9, 9]
+            if c.get('fresh'):
+                a_phi[...] = 3.0
+                a_psi[...] = 4.0
+            for j, kp in enumerate(kept):
+                if not np.array_equal(kp['h'], kp['copy']):
+                    return 'buffer-reuse:earlier-result-changed:' + tag, \
+                        'the result of call %d changed when the buffers were refilled / call %d was made' % (j, i)
+        for i, kp in enumerate(kept):
+            js = probe_indices(kp['N'])
+            ref = ref_values(Fd, Ts, kp['phi'], kp['psi'], kp['k0'] + js)
+            # phases beyond one turn: the rounding of the phase grows with |psi|, |cos| <= 1
+            tol = 2 * tol_for(L, Fd, (kp['k0'] + kp['N']) * Ts) + \
+                (math.sqrt(L) * EPS48 * float(np.max(np.abs(kp['psi']))) if wide else 0.0)
+            err = float(np.max(np.abs(kp['h'][..., js] - ref))) if kp['h'].size else 0.0
+            if not err <= tol:
+                return 'buffer-reuse:value:%s:call=%s' % (tag, 'first' if i == 0 else 'later'), \
+                    ('call %d of %d (buffers refilled in place%s): the result is not the Jakes sum of the contents at '
+                     'call time (off by %.3g, tolerance %.3g)' % (i, len(kept), ', phi_l is psi_l' if case['calls'][i].get('same') else '', err, tol))
+            nt2, h2 = fg.generate_jakes_samples(Fd, Ts, kp['N'], L, kp['shape'], kp['k0'] * Ts, kp['phi'].copy(), kp['psi'].copy())
+            same = h2.shape == kp['h'].shape
+            d = (float(np.max(np.abs(h2 - kp['h']))) if h2.size else 0.0) if same else float('nan')
+            STATS['reuse_compared'] = STATS.get('reuse_compared', 0) + 1
+            STATS['reuse_bit_exact'] = STATS.get('reuse_bit_exact', 0) + int(same and np.array_equal(h2, kp['h']))
+            # (the same computation on another array object: bit-identical in practice, required only within the
+            # stated tolerance so that memory alignment can never raise a false alarm)
+            if not same or not d <= tol or nt2 != kp['nt']:
+                return 'buffer-reuse:differs-from-fresh-call:%s:call=%s' % (tag, 'first' if i == 0 else 'later'), \
+                    'call %d: a call with fresh copies of the same contents returns something else (max difference %.3g)' % (i, d)
+    except Exception as e:
+        return 'exception:%s:buffer-reuse:%s' % (type(e).__name__, tag), repr(e)[:300]
+    return None
+
+
+def o_rs_reuse(case):
+    """R16 for the RS argument: ONE RandomState object is re-seeded in place (`rs.seed(s)`) and handed to several
+    constructors / used by later shape assignments: every generator's phases are the draws of the state the object
+    had when they were drawn (a fresh RandomState(s) gives the same), generators built earlier keep theirs"""
+    fg = _impl()
+    L = int(case['L'])
+    tag = 'n=%d' % len(case['steps'])
+
+    def expect(seed, shape):
+        r = np.random.RandomState(int(seed))
+        dims = (L, 1) if shape is None else (L,) + tuple(shape) + (1,)
+        return r.rand(*dims), r.rand(*dims)
+
+    try:
+        rs = np.random.RandomState(0)
+        live = []
+        for i, st in enumerate(case['steps']):
+            rs.seed(int(st['seed']))                     # the same object, new contents
+            shape = norm_shape(st['shape'])
+            if st['how'] == 'ctor' or not live:
+                g = fg.JakesSampleGenerator(case['Fd'], case['Ts'], L, mk_shape(st['shape']), rs)
+                live.append({'g': g})
+            else:
+                g = live[st['who'] % len(live)]['g']
+                g.shape = mk_shape(st['shape'])
+            rec = [x for x in live if x['g'] is g][0]
+            u_phi, u_psi = expect(st['seed'], shape)
+            rec.update({'phi': g._phi_l.copy(), 'psi': g._psi_l.copy(), 'shape': shape})
+            for got, u, nm in ((g._phi_l, u_phi, 'phi'), (g._psi_l, u_psi, 'psi')):
+                if got.shape != u.shape or not np.allclose(got, TWO_PI * u, rtol=1e-14, atol=0.0):
+                    return 'rs-reuse:stale-draws:' + tag, \
+                        'step %d (%s, RS re-seeded in place with %d): %s is not 2*pi * the draws of that state' % (i, st['how'], st['seed'], nm)
+            for x in live:
+                if not (np.array_equal(x['g']._phi_l, x['phi']) and np.array_equal(x['g']._psi_l, x['psi'])):
+                    return 'rs-reuse:other-generator-changed:' + tag, 'step %d changed the phases of a generator built earlier' % i
+            n = int(st.get('n', 3))
+            k = g._sample_index if hasattr(g, '_sample_index') else None
+            g.generate_more_samples(n)
+            h = g.get_samples()
+            exp_shape = (n,) if shape is None else shape + (n,)
+            if h.shape != exp_shape:
+                return 'rs-reuse:shape:' + tag, 'step %d: %s, expected %s' % (i, h.shape, exp_shape)
+            rec['count'] = rec.get('count', 1) + n
+            kk = rec['count'] - n
+            ref = ref_values(case['Fd'], case['Ts'], g._phi_l, g._psi_l, kk + np.arange(n))
+            if h.size and float(np.max(np.abs(h - ref))) > tol_for(L, case['Fd'], (kk + n) * case['Ts']):
+                return 'rs-reuse:value:' + tag, 'step %d: not the Jakes sum for the generator\'s phases at sample %d' % (i, kk)
+    except Exception as e:
+        return 'exception:%s:rs-reuse:%s' % (type(e).__name__, tag), repr(e)[:300]
+    return None
+
+
 ORACLES = {
     'generate_more_samples': o_history,
     'generate_more_samples.twin': o_twin,
@@ -1307,11 +1675,16 @@ ORACLES = {
     'generate_more_samples.zero_doppler': o_zero_doppler,
     'generate_more_samples.magnitude': o_magnitude,
     'generate_jakes_samples': o_function,
+    'generate_more_samples.close_values': o_close,
+    'generate_jakes_samples.close_values': o_function_close,
+    'generate_jakes_samples.buffer_reuse': o_function_reuse,
+    'JakesSampleGenerator.rs_reuse': o_rs_reuse,
 }
 
 
 def run_oracle(ctx, call, case, key=None, nontrivial=True):
     ctx.count((call, key if key is not None else repr(case)), nontrivial)
+    reset_buffers()
     try:
         r = ORACLES[call](case)
     except MemoryError:
@@ -1330,6 +1703,7 @@ def run_oracle(ctx, call, case, key=None, nontrivial=True):
 
 
 def replay(ctx, rep):
+    reset_buffers()
     try:
         return ORACLES[rep['call']](rep['case']) is not None
     except Exception:
@@ -1526,7 +1900,7 @@ def typed_shape_cases(rng):
 
 
 def has_caller_list(case):
-    return any(isinstance(sp, dict) and sp['t'] in ('list', 'mixedlist')
+    return any(isinstance(sp, dict) and sp['t'] in ('list', 'mixedlist', 'buf:list')
                for sp in [case.get('shape')] + [o[1] for o in case.get('ops', []) if o[0] == 'S'])
 
 
@@ -1812,6 +2186,306 @@ def robustness_cases(rng, n_each):
     return out
 
 
+# ---- third robustness round: R15 (close values), R16 (argument buffers) ----
+def fits_types(vals):
+    mx = max([0] + [abs(int(v)) for v in vals])
+    return [t for t in ('int16', 'int32', 'uint32', 'int64', 'uint64', 'intp') if mx <= np.iinfo(t).max]
+
+
+def to_buffers(rng, ops, dt, skind, p):
+    out = []
+    for kind, arg in ops:
+        if kind in 'gs' and isinstance(arg, int) and rng.chance(p):
+            arg = {'t': 'buf0:' + dt, 'v': arg}
+            if rng.chance(0.25):
+                arg = {'form': 'kw', 'a': arg}
+        elif kind == 'S' and isinstance(arg, (int, list)):
+            arg = {'t': skind, 'v': [arg] if isinstance(arg, int) else list(arg)}
+        out.append([kind, arg])
+    return out
+
+
+def buffer_case(rng, case, p=0.8):
+    """R16: the sizes of a plain history are carried by ONE 0-d array that the caller refills in place before each
+    call (the same object for generate and skip), its shapes by ONE list / ONE integer array (constructor included);
+    some calls keep a fresh Python int of equal content.  Cases with a fork (R13) or with parent / child histories:
+    the derived object is served from the SAME buffers as its parent (one buffer, two generators)."""
+    lists = [case['ops']] + [case[k] for k in ('parent', 'child') if k in case] + \
+        ([case['fork']['child']] if case.get('fork') else [])
+    sizes = [o[1] for ops in lists for o in ops if o[0] in 'gs' and isinstance(o[1], int)]
+    dt = rng.choice([t for t in fits_types(sizes) if not (t.startswith('u') and any(v < 0 for v in sizes))])
+    skind = rng.choice(['buf:list', 'buf:list', 'buf:arr:int64', 'buf:arr:int32'])
+    out = dict(case, ops=to_buffers(rng, case['ops'], dt, skind, p))
+    for k in ('parent', 'child'):
+        if k in case:
+            out[k] = to_buffers(rng, case[k], dt, skind, p)
+    if case.get('fork'):
+        out['fork'] = dict(case['fork'], child=to_buffers(rng, case['fork']['child'], dt, skind, p))
+    if case['shape'] is not None and not isinstance(case['shape'], dict) and rng.chance(0.7):
+        out['shape'] = {'t': skind, 'v': [case['shape']] if isinstance(case['shape'], int) else list(case['shape'])}
+    return out
+
+
+def buffer_scenarios(rng):
+    """R16, deterministic part: one scenario per way a buffer can be reused"""
+    B = lambda dt, v: {'t': 'buf0:' + dt, 'v': v}
+    SL = lambda v: {'t': 'buf:list', 'v': v}
+    SA = lambda v, dt='int64': {'t': 'buf:arr:' + dt, 'v': v}
+    out = [
+        # same content twice, new content, the same object for generate and skip, equal-content fresh objects
+        small_cfg(rng, shape=None, ops=[['g', B('int64', 5)], ['g', B('int64', 5)], ['g', B('int64', 7)], ['s', B('int64', 7)],
+                                        ['g', B('int64', 1)], ['g', None], ['g', B('int64', 0)], ['s', B('int64', 0)],
+                                        ['g', 7], ['g', B('int64', 300)], ['s', 300], ['g', B('int64', 2)]]),
+        small_cfg(rng, shape=2, ops=[['s', B('uint8', 200)], ['g', B('uint8', 100)], ['g', B('uint8', 3)], ['g', 3],
+                                     ['s', B('uint8', 3)], ['g', {'form': 'kw', 'a': B('uint8', 4)}]]),
+        # one shape list: constructor, then the setter again and again (also with unchanged content: a new draw)
+        small_cfg(rng, shape=SL([2, 3]), ops=[['g', 2], ['S', SL([3, 2])], ['g', B('int32', 2)], ['S', SL([2, 3])], ['g', 1],
+                                              ['S', SL([4])], ['S', SL([4])], ['g', B('int32', 3)], ['S', SL([])], ['g', 2],
+                                              ['S', SL([1, 2, 1])], ['g', None]]),
+        small_cfg(rng, shape=SA([2, 1]), ops=[['g', 2], ['S', SA([1, 2])], ['g', 2], ['S', SA([2, 1])], ['g', B('intp', 1)],
+                                              ['S', SA([3], 'int32')], ['S', SA([2], 'int32')], ['g', 3]]),
+        # buffers holding something the call must refuse; the next call with the refilled buffer is served
+        small_cfg(rng, shape=SL([2]), ops=[['g', B('int64', -3)], ['g', B('int64', 4)], ['s', B('int64', -1)], ['s', B('int64', 6)],
+                                           ['S', SL([2, -1])], ['g', 2], ['S', SL([2, 1])], ['g', B('float64', 2.0)],
+                                           ['g', B('int64', 2)], ['S', SA([-1, 2])], ['S', SA([1, 2])], ['g', 1]]),
+        # far into the process
+        small_cfg(rng, L=1, shape=None, ops=[['s', B('int64', (1 << 33) + 1)], ['g', B('int64', 3)], ['s', B('int64', (1 << 31) - 2)],
+                                             ['g', B('int64', 5)], ['g', B('int64', 5)], ['g', None]]),
+        # two buffers of different type used alternately, non-mutating calls and a shape change in between
+        small_cfg(rng, shape=[2, 1], ops=[['g', B('int32', 4)], ['g', B('uint16', 4)], ['Q', 'copy'], ['g', B('int32', 6)],
+                                          ['s', B('uint16', 6)], ['Q', 'get_samples'], ['S', SL([1, 2])], ['g', B('uint16', 2)],
+                                          ['g', B('int32', 2)]]),
+    ]
+    return out
+
+
+def close_params(rng, what, base_fd, base_ts, deltas, L=None, n_var=None):
+    """a set of close-but-distinct (Fd, Ts) and a history that ends where the closest pair is ~0.13 cycles of
+    Doppler apart (margin computed from the deltas; verified from the reference by `pair_margin`)"""
+    L = L or rng.choice([1, 2, 4, 8])
+    if what == 'Fd':
+        vs = [{'Fd': base_fd * (1.0 + d), 'Ts': base_ts} for d in deltas]
+    else:
+        vs = [{'Fd': base_fd, 'Ts': base_ts * (1.0 + d)} for d in deltas]
+    ds = sorted(deltas)
+    dmin = min(b - a for a, b in zip(ds, ds[1:]))
+    cycles = 0.13 / dmin                        # Fd * t at the end of the history
+    k = int(cycles / (base_fd * base_ts))
+    return L, vs, k
+
+
+def close_sets(rng, quick):
+    """R15: sets of generator configurations that differ by less than what np.isclose / a rounded key / an absolute
+    threshold tells apart"""
+    out = []
+
+    def hist(k_end, n1=None):
+        n1 = n1 or rng.choice([1, 2, 5, 16])
+        n2 = rng.choice([1, 3, 7])
+        return [['s', max(1, k_end - n1 - n2 - 4)], ['g', n1], ['g', None], ['s', 2], ['g', n2]]
+
+    def add(kind, L, vs, ops, **kw):
+        out.append(dict({'kind': kind, 'L': L, 'shape': rng.choice([None, 2, [2, 1]]), 'seed': rng.below(1 << 31),
+                         'variants': vs, 'ops': ops, 'order': rng.choice(['interleaved', 'sequential'])}, **kw))
+
+    # Doppler frequencies of size 1e-9 .. 1e-15 (and exactly 0): "all zero" for an absolute threshold
+    for Ts, kend in ((1.0, 10 ** 10 - 7), (0.5, 10 ** 10 - 1000), (1.0, 3 * 10 ** 9)):
+        tiny = [0.0, 1e-15, 1e-12, 4e-12, 4e-13, 1e-9, 2.5e-10]
+        rng.shuffle(tiny)
+        add('Fd-tiny', rng.choice([1, 2, 4]), [{'Fd': f, 'Ts': Ts} for f in tiny[:4]], hist(kend))
+        if quick:
+            break
+    # relative differences 1e-9 .. 1e-5 of a large / ordinary Doppler frequency and of the sampling interval
+    plans = [('Fd', 2.4e9, 1e-9, [0.0, 2e4 / 2.4e9, -3e-6]), ('Fd', 100.0, 1e-3, [0.0, 1e-9, 8e-6, -1e-6]),
+             ('Ts', 37.25, 1e-3, [0.0, 1e-6, -2e-6]), ('Ts', 1000.0, 1e-9, [0.0, 0.5, 1.5, 1e-6]),
+             ('Ts', 250.0, 2.5e-9, [0.0, 1e-5, 1e-9]), ('Fd', 5.0e3, 1e-6, [0.0, 1e-12 * 4, 1e-9])]
+    for what, fd, ts, deltas in (plans[:4] if quick else plans):
+        L, vs, k = close_params(rng, what, fd, ts, deltas)
+        if k > 9 * 10 ** 9:
+            k = 9 * 10 ** 9
+        add(what + ('-tiny' if ts < 1e-8 and what == 'Ts' else '-relative'), L, vs, hist(max(k, 30)))
+    # adjacent doubles: the values cannot be told apart by the samples, but each is stored and forwarded exactly
+    for fd, ts in ((0.3, 1e-3), (100.0, 0.1)):
+        vs = [{'Fd': fd, 'Ts': ts}, {'Fd': float(np.nextafter(fd, 1e9)), 'Ts': ts}, {'Fd': fd, 'Ts': float(np.nextafter(ts, 1.0))}]
+        add('adjacent-doubles', 2, vs, [['g', 3], ['s', 1000], ['g', 2]])
+    return out
+
+
+def close_histories(sets):
+    """every variant of the R15 sets as an ordinary history (closed-form oracle, canonical twin, correspondence
+    with the model run at exactly these values)"""
+    out = []
+    for cs in sets:
+        for v in cs['variants']:
+            c = {k: x for k, x in cs.items() if k not in ('variants', 'kind', 'order')}
+            c.update({'Fd': v['Fd'], 'Ts': v['Ts'], 'r15': cs['kind']})
+            out.append(c)
+    # the smallest sampling interval of the property with the smallest requests: every elapsed time n*Ts and the
+    # first k*Ts are below any absolute threshold; far into the process consecutive times differ by a relative 1e-10
+    for Ts in (1e-9, 2.5e-9):
+        out.append({'Fd': 1000.0, 'Ts': Ts, 'L': 2, 'shape': None, 'seed': 777, 'r15': 'Ts-tiny',
+                    'ops': [['s', 1], ['g', 1], ['s', 3], ['g', 2], ['s', 0], ['g', None], ['s', 9], ['g', 1], ['s', 1], ['g', 1],
+                            ['s', 10 ** 9], ['g', 1], ['g', 1], ['s', 1], ['g', 2], ['s', 2], ['g', 2]]})
+    return out
+
+
+def function_close_cases(rng, quick):
+    """R15 for the free function: consecutive calls with close-but-distinct arguments"""
+    out = []
+
+    def add(kind, calls, L=None, shape='?'):
+        out.append({'kind': kind, 'L': L or rng.choice([1, 2, 4, 8]), 'shape': rng.choice([None, [2], [2, 1]]) if shape == '?' else shape,
+                    'seed': rng.below(1 << 31), 'calls': calls})
+
+    N = rng.choice([1, 4, 9])
+    # Fd: tiny values next to 0, relative differences
+    add('Fd-tiny', [{'Fd': f, 'Ts': 1.0, 'k0': 10 ** 10 - 50, 'N': N} for f in (0.0, 1e-15, 4e-12, 4e-13, 1e-9)])
+    L, vs, k = close_params(rng, 'Fd', 2.4e9, 1e-9, [0.0, 2e4 / 2.4e9, -3e-6])
+    add('Fd-relative', [dict(v, k0=k, N=N) for v in vs], L)
+    L, vs, k = close_params(rng, 'Ts', 100.0, 1e-3, [0.0, 1e-9, 8e-6])
+    add('Ts-relative', [dict(v, k0=k, N=N) for v in vs], L)
+    L, vs, k = close_params(rng, 'Ts', 1000.0, 1e-9, [0.0, 0.5, 1e-6])
+    add('Ts-tiny', [dict(v, k0=k, N=N) for v in vs], L)
+    # current_time: far into the process consecutive start times differ by a relative 1e-7 .. 1e-10; near the origin
+    # with the smallest Ts all of them are below 1e-8
+    k0 = (1 << 33) + rng.randint(0, 1000)
+    add('current_time-relative', [{'Fd': 37.25, 'Ts': 1e-3, 'k0': k0 + d, 'N': N} for d in (0, 1, 2, N + 2, 1000)])
+    add('current_time-tiny', [{'Fd': 4.0e7, 'Ts': 1e-9, 'k0': d, 'N': N} for d in (0, 1, 3, 9, 10)])
+    # phases: phi / psi perturbed by 1e-9 .. 1e-6 (np.allclose-equal), starting phases of size 1e-9 .. 1e-15
+    add('psi-close', [{'Fd': 100.0, 'Ts': 1e-3, 'k0': 50, 'N': N, 'dpsi': d} for d in (0.0, 1e-9, 1e-6, 3e-8)], rng.choice([1, 2]))
+    add('phi-close', [{'Fd': 1000.0, 'Ts': 1e-3, 'k0': 10 ** 6, 'N': N, 'dphi': d} for d in (0.0, 1e-9, 1e-6, 3e-8)])
+    # (starting phases below ~1e-11 are below the binary64 resolution of a sample of size 1: not observable)
+    add('psi-tiny', [{'Fd': 5.0, 'Ts': 1e-3, 'k0': 100, 'N': N, 'psi_scale': d} for d in (0.0, 1e-9, 4e-9, 2e-9)], rng.choice([1, 2]))
+    if not quick:
+        for _ in range(40):
+            fd = float(10.0 ** rng.uniform(0, 4))
+            d = float(10.0 ** rng.uniform(-9, -5.3))
+            what = rng.choice(['Fd', 'Ts'])
+            ts = float(10.0 ** rng.uniform(-9, -2))
+            L, vs, k = close_params(rng, what, fd, ts, [0.0, d, -2 * d])
+            if 10 <= k <= 9 * 10 ** 9:
+                Nr = rng.randint(1, 20)
+                add(what + ('-tiny' if ts < 1e-8 and what == 'Ts' else '-relative'), [dict(v, k0=k, N=Nr) for v in vs], L)
+    return out
+
+
+def function_reuse_cases(rng, n):
+    """R16 for the free function: 2..4 calls with refilled buffers"""
+    import itertools
+    out = []
+    for i in range(n):
+        shape = [None, [2], [2, 3], [1, 2, 2], []][i % 5]
+        perms = list(itertools.permutations(range(len(shape or []))))
+        calls = []
+        for j in range(rng.randint(2, 4)):
+            calls.append({'N': rng.choice([1, 3, 8, 8]), 'k0': rng.choice([0, 5, 1000, (1 << 31) + 3]),
+                          'same': (i % 3 == 1 and j % 2 == 1) or (i % 7 == 3), 'fresh': (i % 4 == 2 and j >= 1 and rng.chance(0.5)),
+                          'perm': list(rng.choice(perms))})
+        if i % 2 == 0:          # same size and shape throughout: only the CONTENT of the buffers changes
+            for c in calls:
+                c['N'], c['perm'] = calls[0]['N'], calls[0]['perm']
+        out.append({'Fd': rng.choice([5.0, 37.25, 100.0]), 'Ts': rng.choice([1e-3, 0.37e-4, 1e-6]), 'L': rng.choice([1, 2, 4, 8]),
+                    'shape': shape, 'seed': rng.below(1 << 31), 'calls': calls, 'wide': i % 3 == 0,
+                    'N_buf': [None, 'int64', 'int32'][i % 3], 'shape_buf': i % 2 == 1})
+    return out
+
+
+def rs_reuse_cases(rng, n):
+    out = []
+    for i in range(n):
+        steps = [{'how': 'ctor', 'seed': rng.below(1 << 31), 'shape': gen_shape(rng), 'n': rng.randint(1, 5)}]
+        for j in range(rng.randint(1, 3)):
+            steps.append({'how': rng.choice(['ctor', 'setter']), 'who': rng.below(4), 'seed': rng.below(1 << 31),
+                          'shape': gen_shape(rng), 'n': rng.randint(1, 5)})
+        if i % 2 == 0:          # the SAME seed again: equal draws for the next generator, by value not by history
+            steps.append({'how': 'ctor', 'seed': steps[0]['seed'], 'shape': steps[0]['shape'], 'n': 2})
+        out.append({'Fd': rng.choice([5.0, 100.0]), 'Ts': 1e-3, 'L': rng.choice([1, 3, 8]), 'steps': steps})
+    return out
+
+
+ROBUST3_BRANCHES = [w + b for w in ('corr', 'oracle') for b in (
+    ':R15-close-values:Fd-tiny', ':R15-close-values:Fd-relative', ':R15-close-values:Ts-relative', ':R15-close-values:Ts-tiny',
+    ':R15-close-values:adjacent-doubles', ':R16-size-buffer-refilled', ':R16-one-buffer-two-roles',
+    ':R16-shape-buffer-refilled', ':R16-buffer-holds-rejected-content', ':R16-equal-content-fresh-object')] + [
+    'oracle:R15-close-set', 'oracle:R15-close-set-separated', 'oracle:R15-function-close', 'oracle:R15-function-close-separated',
+    'oracle:R16-function-buffers', 'oracle:R16-function-one-array-two-roles', 'oracle:R16-function-equal-content-fresh-object',
+    'oracle:R16-rs-reseeded-in-place', 'oracle:R16-one-buffer-two-generators', 'corr:R16-one-buffer-two-generators']
+MARGIN = 20.0       # variants count as told apart when their references differ by this many tolerances
+
+
+def robustness3_cases(rng, quick):
+    sets = close_sets(rng, quick) + ([] if quick else random_close_sets(rng, 40))
+    hist = [('R15-close', c) for c in close_histories(sets)]
+    hist += [('R16-buffers', c) for c in buffer_scenarios(rng)]
+    for _ in range(25 if quick else 400):
+        hist.append(('R16-buffers', buffer_case(rng, valid_int_history(rng, rng.randint(2, 8)))))
+    for _ in range(6 if quick else 100):
+        hist.append(('R16-buffers', buffer_case(rng, rejected_history(rng, valid_int_history(rng, rng.randint(2, 5))), p=0.6)))
+    for how in ('copy', 'deepcopy', 'pickle'):
+        for _ in range(2 if quick else 30):
+            hist.append(('R16-buffers-fork', buffer_case(rng, fork_case(rng, how), p=0.9)))
+    return sets, hist
+
+
+def random_close_sets(rng, n):
+    """R15, thorough tier: random base values and relative differences 1e-9 .. 5e-6"""
+    out = []
+    while len(out) < n:
+        fd = float(10.0 ** rng.uniform(0, 4))
+        ts = float(10.0 ** rng.uniform(-9, -2))
+        d = float(10.0 ** rng.uniform(-9, -5.3))
+        what = rng.choice(['Fd', 'Ts'])
+        L, vs, k = close_params(rng, what, fd, ts, [0.0, d, -2 * d] if rng.chance(0.5) else [0.0, d])
+        if not 30 <= k <= 9 * 10 ** 9:
+            continue
+        n1, n2 = rng.choice([1, 2, 5, 16]), rng.choice([1, 3, 7])
+        out.append({'kind': what + ('-tiny' if ts < 1e-8 and what == 'Ts' else '-relative'), 'L': L,
+                    'shape': rng.choice([None, 2, [2, 1]]), 'seed': rng.below(1 << 31), 'variants': vs,
+                    'ops': [['s', max(1, k - n1 - n2 - 4)], ['g', n1], ['g', None], ['s', 2], ['g', n2]],
+                    'order': rng.choice(['interleaved', 'sequential'])})
+    return out
+
+
+def robustness3_campaign(ctx, sets, hist, quick):
+    for fam, case in hist:
+        if case.get('fork'):
+            continue                    # (forks: correspondence; the derived-object oracle follows)
+        robustness_branches(ctx, case, 'oracle')
+        run_oracle(ctx, 'generate_more_samples', case)
+        run_oracle(ctx, 'generate_more_samples.twin', case)
+    hows = ['copy', 'deepcopy', 'pickle', 'similar']
+    for i in range(8 if quick else 120):
+        run_oracle(ctx, 'generate_more_samples.derived', buffer_case(ctx.rng, derived_case(ctx.rng, hows[i % 4]), p=0.9))
+        ctx.branch('oracle:R16-one-buffer-two-generators')
+    for case in sets:
+        r = run_oracle(ctx, 'generate_more_samples.close_values', case)
+        ctx.branch('oracle:R15-close-set')
+        if r is None and case['kind'] != 'adjacent-doubles':
+            m = LAST.get('margin', 0.0)
+            STATS['close_margin_min'] = min(STATS.get('close_margin_min', float('inf')), m)
+            if m >= MARGIN:
+                ctx.branch('oracle:R15-close-set-separated')
+            else:
+                ctx.branch('oracle:R15-close-set-NOT-separated')
+    for case in function_close_cases(ctx.rng, quick):
+        r = run_oracle(ctx, 'generate_jakes_samples.close_values', case)
+        ctx.branch('oracle:R15-function-close')
+        if r is None:
+            m = LAST.get('margin', 0.0)
+            STATS['function_close_margin_min'] = min(STATS.get('function_close_margin_min', float('inf')), m)
+            ctx.branch('oracle:R15-function-close-separated' if m >= MARGIN else 'oracle:R15-function-close-NOT-separated')
+    for case in function_reuse_cases(ctx.rng, 30 if quick else 600):
+        run_oracle(ctx, 'generate_jakes_samples.buffer_reuse', case)
+        ctx.branch('oracle:R16-function-buffers')
+        if any(c.get('same') for c in case['calls']):
+            ctx.branch('oracle:R16-function-one-array-two-roles')
+        if any(c.get('fresh') for c in case['calls']):
+            ctx.branch('oracle:R16-function-equal-content-fresh-object')
+    for case in rs_reuse_cases(ctx.rng, 12 if quick else 200):
+        run_oracle(ctx, 'JakesSampleGenerator.rs_reuse', case)
+        ctx.branch('oracle:R16-rs-reseeded-in-place')
+
+
 WITNESS = {'Fd': 5, 'Ts': 1e-3, 'L': 4, 'shape': None, 'seed': 1, 'ops': [['s', 2048002], ['g', 1]]}
 
 
@@ -1941,9 +2615,10 @@ class Runner:
                 do_query(g, arg)
             else:
                 obj = mk_shape(arg)
-                g.shape = obj
-                if isinstance(obj, list):
-                    obj.append(5)       # the caller goes on using its own list
+                try:
+                    g.shape = obj
+                finally:
+                    scribble(obj)       # the caller goes on using its own list / array
             err = '-'
         except Exception as e:
             err = type(e).__name__
@@ -1978,10 +2653,10 @@ def impl_history(case, Probe):
     the generator (R13); half of its calls are made at once, the other half after the parent's remaining
     calls; its states are returned as a second list."""
     Ts = scaled(case)[1]
+    reset_buffers()
     ctor_shape = mk_shape(case['shape'])
     g = make_gen(case, Probe, shape_obj=ctor_shape)
-    if isinstance(ctor_shape, list):
-        ctor_shape.append(5)            # the caller goes on using its own list
+    scribble(ctor_shape)                # the caller goes on using its own list / array
     r = Runner(g, Ts)
     r.snapshot(r.record_block('0'))
     fork = case.get('fork')
@@ -2013,6 +2688,29 @@ def ctor_shape_tok(spec):
         return shape_tok(spec)
     val = norm_shape(spec)
     return 't' + ';'.join(str(d) for d in val)
+
+
+def caller_tokens(ops):
+    """R16: the history as the caller's program for the model (`histb`): B<n> / C<shape> refill the size / shape buffer in
+    place, gb / sb / Sb pass the buffer object, and the buffer is overwritten right after every call"""
+    toks = []
+    for o in ops:
+        kind = o[0]
+        a = unform(o[1])[1] if kind in 'gs' else o[1]
+        if kind in 'gs' and is_buf(a):
+            toks += ['B' + size_tok(a), kind + 'b', 'B%d' % SCRIBBLE]
+        elif kind == 'S' and is_buf(a):
+            junk = [int(d) for d in a['v']] + [5] if a['t'] == 'buf:list' else [SCRIBBLE] * len(a['v'])
+            toks += ['C' + shape_tok(a), 'Sb', 'Ct' + ';'.join(str(d) for d in junk)]
+        else:
+            toks.append(op_tok(o))
+    return toks
+
+
+def model_line(c, ops):
+    if any(is_buf(unform(o[1])[1] if o[0] in 'gs' else o[1]) for o in ops):
+        return 'histb shape=%s ops=%s' % (ctor_shape_tok(c['shape']), ','.join(caller_tokens(ops)))
+    return 'histx shape=%s ops=%s' % (ctor_shape_tok(c['shape']), ','.join(op_tok(o) for o in ops))
 
 
 def robustness_branches(ctx, c, where):
@@ -2077,19 +2775,41 @@ def robustness_branches(ctx, c, where):
         ctx.branch(where + ':R14-count-scale')
     if sum(1 for o in ops if o[0] == 'S') >= 2:
         ctx.branch(where + ':R7-repeated-shape-assignment')
+    if c.get('r15'):
+        ctx.branch(where + ':R15-close-values:' + c['r15'])
+    bsz = {}
+    for o in ops:
+        a = unform(o[1])[1] if o[0] in 'gs' else None
+        if is_buf(a):
+            bsz.setdefault(a['t'], []).append((o[0], a['v']))
+    for t, uses in bsz.items():
+        if len({v for _, v in uses}) >= 2:
+            ctx.branch(where + ':R16-size-buffer-refilled')
+        if {kd for kd, _ in uses} == {'g', 's'}:
+            ctx.branch(where + ':R16-one-buffer-two-roles')
+    if bsz and any(o[0] in 'gs' and isinstance(unform(o[1])[1], int) and any(unform(o[1])[1] == v for u in bsz.values() for _, v in u)
+                   for o in ops):
+        ctx.branch(where + ':R16-equal-content-fresh-object')
+    bsh = {}
+    for sp in [c.get('shape')] + [o[1] for o in ops if o[0] == 'S']:
+        if is_buf(sp):
+            bsh.setdefault((sp['t'], len(sp['v']) if sp['t'] != 'buf:list' else 0), []).append(tuple(sp['v']))
+    if any(len(set(u)) >= 2 for u in bsh.values()):
+        ctx.branch(where + ':R16-shape-buffer-refilled')
+    if any(is_buf(unform(o[1])[1]) and size_value(o[1])[0] != 'ok' for o in ops if o[0] in 'gs') \
+            or any(is_buf(o[1]) and shape_value(o[1])[0] != 'ok' for o in ops if o[0] == 'S'):
+        ctx.branch(where + ':R16-buffer-holds-rejected-content')
     return json.dumps([c.get('shape'), ops, c.get('types'), c.get('scale_exp10')], sort_keys=True, default=str)
 
 
 def correspondence(ctx, cases):
     drv = core.Driver(DRIVER)
     Probe = probe_class()
-    lines = ['histx shape=%s ops=%s' % (ctor_shape_tok(c['shape']), ','.join(op_tok(o) for o in c['ops'])) for c in cases]
+    lines = [model_line(c, c['ops']) for c in cases]
     replies = drv.ask(lines)
     forked = [c for c in cases if c.get('fork')]
     child_replies = dict(zip([id(c) for c in forked], drv.ask(
-        ['histx shape=%s ops=%s' % (ctor_shape_tok(c['shape']),
-                                    ','.join(op_tok(o) for o in c['ops'][:c['fork']['at']] + c['fork']['child']))
-         for c in forked])))
+        [model_line(c, c['ops'][:c['fork']['at']] + c['fork']['child']) for c in forked])))
     vlines, vmeta = [], []
     tlines, tmeta = [], []
     for c, rep in zip(cases, replies):
@@ -2110,6 +2830,9 @@ def correspondence(ctx, cases):
                 cm = re.sub(r'(\d)/\d+/(\d+)/(\d+)', r'\1/?/\2/\3', cm)
             ctx.corr('history.derived-object', c, ci, cm, key=('fork', repr(c['fork']), repr(c['ops'])))
             ctx.branch('corr:R13-derived-' + c['fork']['how'])
+            if any(is_buf(unform(o[1])[1] if o[0] in 'gs' else o[1]) for o in c['fork']['child']) and \
+                    any(is_buf(unform(o[1])[1] if o[0] in 'gs' else o[1]) for o in c['ops']):
+                ctx.branch('corr:R16-one-buffer-two-generators')
             if c.get('ctor') == 'global-rs':
                 ctx.branch('corr:R13-derived-from-default-RS-generator')
         if not have_hook:
@@ -2410,13 +3133,13 @@ def check(ctx):
     ctx.rule = ('histories: constructor + 1..12 seeded requests generate(None|1..1e5) / skip(1..~8e9, incl. 2^e+-3) / '
                 'shape reassignment, Fd in {0} u [0.01,1000], Ts in 1e-9..1 (log-uniform + fixed values), L 1..20, '
                 'shape None/int/tuples of 0..3 dims, numpy RandomState(seed) phases; long-run sweep: skip to 2^e+d '
-                'then small requests; robustness families R1..R7 (typed sizes crossing the range of each integer type, typed parameters and shapes, phase layouts, rejected calls, boundary sizes/shapes, rescaled time axis, life cycle); histories of 1e3..3e4 requests of 1..4 samples; every history of <= 3 (quick) / 4 (thorough) requests over a 9-letter alphabet; non-trivial = distinct history with >= 2 requests / distinct value probe '
+                'then small requests; robustness families R15 (close-but-distinct Fd / Ts sets, margins from the reference) and R16 (argument buffers refilled in place); robustness families R1..R7 (typed sizes crossing the range of each integer type, typed parameters and shapes, phase layouts, rejected calls, boundary sizes/shapes, rescaled time axis, life cycle); histories of 1e3..3e4 requests of 1..4 samples; every history of <= 3 (quick) / 4 (thorough) requests over a 9-letter alphabet; non-trivial = distinct history with >= 2 requests / distinct value probe '
                 'whose tolerance is < 1e-6 / distinct oracle case')
     core.prove(ctx, MODULE, generated=[], drivers=[DRIVER], scratch=ctx.scratch)
     ctx.required_branches = ['op:gen', 'op:gen-default', 'op:skip', 'op:set-shape', 'shape:none', 'shape:int',
                              'long-run-request(k>=2^21)', 'position>=1e9', 'value-tol<1e-6', 'Fd=0',
                              'magnitude:at-bound', 'oracle:long-run', 'corpus', 'tiny-request-history',
-                             'oracle:tiny-request-history'] + ROBUST_BRANCHES + ROBUST2_BRANCHES
+                             'oracle:tiny-request-history'] + ROBUST_BRANCHES + ROBUST2_BRANCHES + ROBUST3_BRANCHES
     n_hist = 600 if quick else 6000
     cases = [dict(WITNESS)]
     cases += [gen_history(ctx.rng) for _ in range(n_hist)]
@@ -2435,6 +3158,8 @@ def check(ctx):
     cases += [c for _, c in robust if c.get('Ts') != 0]
     robust2 = robustness2_cases(ctx.rng, 25 if quick else 400, quick)
     cases += [c for _, c in robust2]
+    close, robust3 = robustness3_cases(ctx.rng, quick)
+    cases += [c for _, c in robust3]
     cases += [fork_case(ctx.rng, how) for how in ('copy', 'deepcopy', 'pickle') for _ in range(6 if quick else 100)]
     cases += [fork_case(ctx.rng, how, default_rs=True) for how in ('copy', 'deepcopy', 'pickle')
               for _ in range(2 if quick else 30)]
@@ -2460,6 +3185,7 @@ def check(ctx):
         oracle_campaign(ctx, 6000, 3000, 1000, 1000, 1000, longs, n_tiny=10, tiny_len=30000)
     robustness_campaign(ctx, robust, 60 if quick else 800)
     robustness2_campaign(ctx, robust2, 40 if quick else 600)
+    robustness3_campaign(ctx, close, robust3, quick)
     ctx.extra['max_error_over_tolerance'] = {k: (round(v, 4) if isinstance(v, float) else v) for k, v in STATS.items()}
     ctx.sample({'call': 'generate_more_samples', 'case': WITNESS,
                 'check': 'skip 2048002 then request 1 sample: 1 sample, value = Jakes sum at 2048003*Ts'})
@@ -2470,6 +3196,10 @@ def check(ctx):
 
 def search(ctx):
     """deeper failing-input search, used when a proof / correspondence broke"""
+    sets, hist = robustness3_cases(ctx.rng, True)
+    robustness3_campaign(ctx, sets, hist, True)
+    if len(ctx.failures) >= 20:
+        return
     for fam, case in robustness_cases(ctx.rng, 150):
         run_oracle(ctx, 'generate_more_samples', case)
         run_oracle(ctx, 'generate_more_samples.twin', case)
